@@ -348,6 +348,15 @@ def f():
     return A().run(), B().run()
 ''', ['f()'], expect_inlined=False)
 
+case('single-expression helper on the right of `and` / in a conditional expression branch', '''
+def _timed(e):
+    return e not in ('never', 'session') and e is not None
+def f(cookie, e):
+    if cookie and _timed(e):
+        return 'stamp'
+    return ('no', 1 if _timed(e) else 0)
+''', ['f({}, 5)', 'f({1: 1}, 5)', 'f({1: 1}, "never")', 'f({1: 1}, None)'])
+
 case('boolean context: helper on the right of `and` is not hoisted', '''
 log = []
 def _side(a):
